@@ -1139,31 +1139,24 @@ fn getset_command(
         anyhow::bail!("Must specify either sample names or --prefix");
     };
 
-    // If output file specified, extract to file
-    // Otherwise, extract to stdout (via temp file for simplicity)
-    if let Some(output_path) = output {
-        // Extract each sample to the output file (append mode)
-        for sample_name in &samples_to_extract {
-            if verbosity > 0 {
-                eprintln!("Extracting sample: {sample_name}");
-            }
-            decompressor.write_sample_fasta(sample_name, &output_path)?;
-        }
+    // Each sample is extracted to a temp file (write_sample_fasta creates/truncates its target)
+    // and appended, in request order, to the output file or to stdout.
+    let temp_path = std::env::temp_dir().join(format!("agc_extract_{}.fasta", std::process::id()));
+    let mut out: Box<dyn Write> = if let Some(output_path) = output {
+        Box::new(std::fs::File::create(output_path)?)
     } else {
-        // Extract to temp file then write to stdout
-        let temp_path =
-            std::env::temp_dir().join(format!("agc_extract_{}.fasta", std::process::id()));
-        for sample_name in &samples_to_extract {
-            if verbosity > 0 {
-                eprintln!("Extracting sample: {sample_name}");
-            }
-            decompressor.write_sample_fasta(sample_name, &temp_path)?;
+        Box::new(io::stdout())
+    };
+    for sample_name in &samples_to_extract {
+        if verbosity > 0 {
+            eprintln!("Extracting sample: {sample_name}");
         }
-        // Write temp file to stdout
+        decompressor.write_sample_fasta(sample_name, &temp_path)?;
         let contents = std::fs::read(&temp_path)?;
-        io::stdout().write_all(&contents)?;
-        std::fs::remove_file(&temp_path)?;
+        out.write_all(&contents)?;
     }
+    out.flush()?;
+    std::fs::remove_file(&temp_path)?;
 
     decompressor.close()?;
     Ok(())
